@@ -84,6 +84,23 @@ def only_in(a_sites, b_sites):
     return out
 
 
+def common(a_sites, b_sites):
+    """pairs of sites with the same (span, kind, callee), paired in order"""
+    out = []
+    for sp, lst in a_sites.items():
+        bl = b_sites.get(sp)
+        if not bl:
+            continue
+        used = [False] * len(bl)
+        for x in lst:
+            for j, y in enumerate(bl):
+                if not used[j] and y[0] == x[0] and y[1] == x[1]:
+                    used[j] = True
+                    out.append((sp, x, y))
+                    break
+    return out
+
+
 def mut_params(crate, callee, node=None):
     f = crate.fns.get(callee)
     if f is None and node is not None and node.get("trait") and node.get("callee_krate") == crate.d["crate"]:
@@ -131,3 +148,129 @@ def adt_field_names(crate):
             for fl in v["fields"]:
                 out.add(p.split("::")[-1] + "." + fl["name"])
     return out
+
+
+# ---------------------------------------------------------------------------------------------
+# backward data slices by source span (configuration-stable: the extra overflow-check statements of
+# a debug build carry the span of the expression they belong to)
+class SpanSlice:
+    """flow-insensitive backward data slice of a local, as a set of (source span, what) elements.
+    Debug-build lowering of checked arithmetic (T = OpWithOverflow(a, b); assert; X = move T.0) is
+    folded into X = Op(a, b) so that the two builds give the same elements for the same source."""
+
+    def __init__(self, f, skip_fields=()):
+        self.f = f
+        self.defs = {}      # local -> [(span, consts, fields, used locals)]
+        checked = {}        # T -> (consts, fields, used)
+        ndefs = {}
+        blocks = [b for b in f.blocks if not b["cleanup"] and b["i"] in f.cfg.reach]
+        for blk in blocks:
+            for s in blk["stmts"]:
+                if s.get("s") == "assign":
+                    ndefs[s["lhs"]["l"]] = ndefs.get(s["lhs"]["l"], 0) + 1
+            if blk["term"]["t"] == "call":
+                ndefs[blk["term"]["dest"]["l"]] = ndefs.get(blk["term"]["dest"]["l"], 0) + 1
+
+        def uses(places, ops):
+            used, consts, fields = set(), set(), set()
+            for p in places:
+                used.add(p["l"])
+                for e in p["proj"]:
+                    if e.get("p") == "index":
+                        used.add(e["l"])
+                    if e.get("p") == "field" and e.get("name") is not None and e.get("adt"):
+                        fields.add(e["adt"].split("::")[-1] + "." + e["name"])
+            for o in ops:
+                if isinstance(o, dict) and o.get("o") == "const":
+                    consts.add(str(o.get("txt", o.get("v"))))
+            return used, consts, fields
+
+        for blk in blocks:
+            for s in blk["stmts"]:
+                if s.get("s") != "assign":
+                    continue
+                rv = s["rv"]
+                ops = [rv.get("a"), rv.get("b")] + list(rv.get("ops", []))
+                if rv["r"] == "aggregate" and rv.get("adt") and rv.get("fields"):
+                    ops = [o for o, fl in zip(rv["ops"], rv["fields"]) if rv["adt"].split("::")[-1] + "." + fl not in skip_fields]
+                places = [o for o in ops if isinstance(o, dict) and o.get("o") in ("copy", "move")]
+                if "p" in rv:
+                    places.append(rv["p"])
+                lhs = s["lhs"]
+                if lhs["proj"]:
+                    places.append(lhs)      # partial update keeps the rest of the old value
+                used, consts, fields = uses(places, ops)
+                if rv["r"] == "binop" and rv["op"].endswith("WithOverflow") and not lhs["proj"] and ndefs.get(lhs["l"]) == 1:
+                    checked[lhs["l"]] = (consts, fields, used)
+                    continue
+                self.defs.setdefault(lhs["l"], []).append([self._sp(s), consts, fields, used, rv])
+            t = blk["term"]
+            if t["t"] == "call":
+                places = [a for a in t["args"] if a.get("o") != "const"]
+                used, consts, fields = uses(places, t["args"])
+                el = [self._sp(t), consts | {"call:" + (t.get("resolved") or t.get("callee") or "?")}, fields, used, None]
+                self.defs.setdefault(t["dest"]["l"], []).append(el)
+                for a in places:      # a callee may write through the &mut it receives
+                    if str(a.get("ty", "")).startswith("&mut"):
+                        self.defs.setdefault(a["l"], []).append(el)
+        for l, lst in self.defs.items():
+            for el in lst:
+                rv = el[4]
+                if rv is not None and rv["r"] == "use" and rv["a"].get("o") in ("move", "copy") and rv["a"]["l"] in checked \
+                        and [e.get("p") for e in rv["a"]["proj"]] == ["field"] and rv["a"]["proj"][0].get("i") == 0:
+                    c, fl, u = checked[rv["a"]["l"]]
+                    el[1], el[2], el[3] = el[1] | c, el[2] | fl, (el[3] - {rv["a"]["l"]}) | u
+        self.memo = {}
+
+    @staticmethod
+    def _sp(node):
+        sp = node["sp"]
+        return (sp["file"], sp["l0"], sp["c0"], sp["l1"], sp["c1"])
+
+    def of_local(self, l):
+        if l in self.memo:
+            return self.memo[l]
+        seen = set()
+        out = set()
+        todo = [l]
+        while todo:
+            x = todo.pop()
+            if x in seen:
+                continue
+            seen.add(x)
+            for sp, consts, fields, used, _ in self.defs.get(x, ()):
+                out.add((sp, "def"))
+                for c in consts:
+                    out.add((sp, "const " + c))
+                for fl in fields:
+                    out.add(("field", fl))
+                todo.extend(used)
+            if 1 <= x <= self.f.argc:
+                out.add(("param", x))
+        r = frozenset(out)
+        self.memo[l] = r
+        return r
+
+    def of_operand(self, o):
+        if o.get("o") == "const":
+            return frozenset([("const", str(o.get("txt", o.get("v"))))])
+        r = set(self.of_local(o["l"]))
+        for e in o["proj"]:
+            if e.get("p") == "index":
+                r |= self.of_local(e["l"])
+            if e.get("p") == "field" and e.get("name") is not None and e.get("adt"):
+                r.add(("field", e["adt"].split("::")[-1] + "." + e["name"]))
+        return frozenset(r)
+
+    def of_store(self, s):
+        """what a store writes: the slice of everything its right-hand side reads"""
+        lst = [el for el in self.defs.get(s["lhs"]["l"], ()) if el[0] == self._sp(s)]
+        out = set()
+        for sp, consts, fields, used, _ in lst:
+            for c in consts:
+                out.add(("const", c))
+            for fl in fields:
+                out.add(("field", fl))
+            for u in used:
+                out |= self.of_local(u)
+        return frozenset(out)
